@@ -134,7 +134,7 @@ def st_mask(draw, c, role="final"):
 
 @st.composite
 def st_spec(draw):
-    chunk = draw(st.sampled_from([100, 100, 100, 100, 1000, None]))
+    chunk = draw(st.sampled_from([100, 100, 100, 100, 100, 1000, 1000, None]))
     c = {100: 10, 1000: 18, None: 10}[chunk]
     src = draw(st.sampled_from(["dict", "dict", "lazy", "lazy", "hdf5", "hdf5",
                                 "hdf5", "short", "basin", "basin", "tdms", "tdms"]))
@@ -215,6 +215,63 @@ def st_spec(draw):
 
 def strategy(tier):
     return st_spec()
+
+
+RICH = ["deform", "area_um", "time", "frame", "fl1_max", "image", "mask", "qpi_pha",
+        "vf_vec", "contour", "trace", "vf_plug"]
+
+
+def _fixed(src, mask, depth=0, n=34, filtered=True, **over):
+    """hand-made spec (deterministic part: every essential class is present in
+    every run, independent of the seed)"""
+    spec = {
+        "chunk": 100, "src": src, "seed": 4242 + 7 * depth + (mask.get("k") or 0),
+        "filtered": filtered, "enable": True,
+        "flags": {"logs": True, "tables": True, "basins": False,
+                  "skip_checks": False, "prefix": "src_", "compression": "default",
+                  "path": "path"},
+        "tsv": True, "tsv_filtered": True, "depth": depth, "n": n,
+        "feats": list(RICH), "specials": [[0, 3, 0], [1, 5, 1], [2, 0, 3]],
+        "traces": ["fl1_raw", "fl3_raw"],
+        "masks": [{"mode": "drop", "k": 2, "seed": 5 + i} for i in range(depth)]
+        + [mask],
+        "box": None, "export": [0, 5, 5, 30], "export_all": True,
+        "temp_in_file": True, "split": 13, "nlogs": 2,
+        "loglines": ["first line", "", "zweite Zeile äöü €", "x" * 120],
+        "ntables": 2, "user": [0, 5, 7], "runid": "rid", "basin_mapped": False,
+        "basin_stored": 2}
+    if src == "tdms":
+        spec.update(fixture=over.pop("fixture", 0), export=[0, 3, 3],
+                    nonsc=["mask", "contour", "image", "trace"])
+    spec.update(over)
+    return spec
+
+
+def enumerate_cases(tier):
+    K = [{"mode": "k", "k": k, "seed": 11 + k} for k in (9, 10, 11, 21, 23)]
+    M = K + [{"mode": "all", "seed": 1}, {"mode": "none", "seed": 1},
+             {"mode": "one", "seed": 3}]
+    for src in ("dict", "lazy", "hdf5", "basin"):
+        for m in M:
+            yield _fixed(src, m)
+    for m in K[2:]:
+        yield _fixed("basin", m, basin_mapped=True, split=9)
+        yield _fixed("short", m, split=26)
+        yield _fixed("short", m, split=11, filtered=False)
+    for src in ("dict", "hdf5", "basin"):
+        for depth in (1, 2):
+            for m in K[2:]:
+                yield _fixed(src, m, depth=depth, n=64, temp_in_file=(depth == 1))
+    yield _fixed("basin", M[5], basin_mapped=True, split=9)
+    yield _fixed("basin", M[5], basin_mapped=True, split=9, filtered=False)
+    for src in ("dict", "hdf5"):
+        yield _fixed(src, M[5], filtered=False)
+        yield _fixed(src, K[3], chunk=1000, n=64)
+        yield _fixed(src, K[3], chunk=None)
+    for fx in (0, 1, 2, 3):
+        for m in ({"mode": "all", "seed": 1}, {"mode": "drop", "k": 2, "seed": 9},
+                  {"mode": "bits", "bits": [True, True, False], "seed": 1}):
+            yield _fixed("tdms", m, fixture=fx)
 
 
 def sample_view(spec):
@@ -875,6 +932,11 @@ def verify_hdf5(spec, rec, out, S, src_ds, want, exp, k, tag, eff_filtered,
                 if count(f, kd, got.shape[0]):
                     rec.check(eqnan(got, np.asarray(e)), f"raw/values/{kd}/{tag}",
                               lambda: f"{f}: {_first_diff(got, e)}")
+        if k == 0:
+            rec.check(h5.attrs.get("experiment:event count") in (None, 0),
+                      "event-count/empty-selection",
+                      f"no event was exported, but 'experiment:event count' is "
+                      f"{h5.attrs.get('experiment:event count')}")
         if k and not badcount:
             rec.check(h5.attrs.get("experiment:event count") == k, f"event-count/{tag}",
                       f"attribute {h5.attrs.get('experiment:event count')}, expected {k}")
